@@ -192,3 +192,5 @@ def run(ctx, rep):
             good = fact_match(f, "call-true", r"PartialOrd::ge$|::ge$") or fact_match(f, "cmp", "^Le$", None, None)
             rep.check("C20.flow", "ShortLeadOut when the last index is at or beyond the lead-out", good, x.loc(s["sp"]), "", "facts: %s" % fact_str(f))
     rep.floor("C20.flow", "lead-out constructors", len(lo), 2)
+    from rules import C11 as _C11
+    compose(ctx, rep, "C11", "C20.block", r"^C11\.isrc$")
